@@ -273,9 +273,7 @@ func TestC02(t *testing.T) {
 		}
 		rec.Case(key, append(labels, fmt.Sprintf("clients:%d", len(c.Clients)))...)
 		rec.ExtraAdd("requests_sent", int64(nreq))
-		if nreq <= 6 {
-			rec.Sample(c)
-		}
+		rec.Sample(stormSample(c))
 		return c
 	}, func(c stormCase) *evid.Fail {
 		res, f := runStorm(&c, rec)
